@@ -278,15 +278,22 @@ def query_name(name):
     return base if re.fullmatch(r"[A-Za-z_][A-Za-z0-9_]*", base) else ""
 
 
-def decode(binary, source, cu_name=None):
+def decode(binary, source, cu_name=None, crate_roots=None):
     """Independent decode of the puppet's own compilation units.
     `source`: absolute path of the puppet's source file."""
     source = os.path.normpath(source)
-    base = os.path.basename(source)
-    cus = [c for c in compile_units(binary)
-           if c["stmt_list"] is not None and
-           (c["name"] == (cu_name or base) or c["name"].startswith(base + "/@/") or
-            os.path.normpath(os.path.join(c["comp_dir"], c["name"].split("/@/")[0])) == source)]
+    # crate roots: the source files whose compilation units are decoded.  A source file's code can live in
+    # several units (a library crate's generics are instantiated in the unit of the crate that uses them), so
+    # for a multi-crate puppet every crate of the puppet is decoded and `source` is the file that is queried.
+    roots = [os.path.normpath(str(r)) for r in (crate_roots or [source])]
+    bases = {os.path.basename(r) for r in roots}
+
+    def mine(c):
+        head = c["name"].split("/@/")[0]
+        return (c["name"] == cu_name or head in bases or
+                os.path.normpath(os.path.join(c["comp_dir"], head)) in roots)
+
+    cus = [c for c in compile_units(binary) if c["stmt_list"] is not None and mine(c)]
     if not cus:
         raise vlib.ToolError(f"no compilation unit of {source} in {binary}")
     segs = exec_segments(binary)
@@ -304,6 +311,7 @@ def decode(binary, source, cu_name=None):
 
     src_id = fid(source)
     rows, funcs = [], []
+    units_with_source = 0
     seq_base = 0
     dropped_seq = dropped_fn = 0
     versions = set()
@@ -324,17 +332,20 @@ def decode(binary, source, cu_name=None):
                 continue
             for r in rs:
                 r = dict(r)
+                r["unit"] = cu["off"]
                 r["seq"] = seq_base + nseq
                 r["file"] = fid(paths.get(r["file"], f"<file {r['file']}>"))
                 rows.append(r)
             nseq += 1
         seq_base += nseq
+        if any(r["unit"] == cu["off"] and r["file"] == src_id and not r["es"] for r in rows):
+            units_with_source += 1
         for f in functions_of_cu(binary, cu):
             if not all(in_text(lo) and in_text(hi - 1) for lo, hi in f["ranges"]):
                 dropped_fn += 1
                 continue
             f["cu"] = cu["off"]
-            f["user"] = f["decl_file"] == source
+            f["user"] = f["decl_file"] == source or f["decl_file"] in roots
             f["q"] = query_name(f["name"])
             funcs.append(f)
     insn = instruction_addresses(binary)
@@ -347,7 +358,7 @@ def decode(binary, source, cu_name=None):
     return {"binary": str(binary), "source": source, "src_id": src_id, "files": file_list, "rows": rows,
             "funcs": funcs, "pcs": pcs, "line_qs": line_qs, "fn_qs": fn_qs, "range_qs": range_qs, "nlines": nlines, "dwarf_versions": sorted(versions),
             "dropped_sequences": dropped_seq, "dropped_functions": dropped_fn, "pie": is_pie(binary),
-            "cus": [c["name"] for c in cus], "exec_segments": segs}
+            "cus": [c["name"] for c in cus], "units_with_rows_of_source": units_with_source, "exec_segments": segs}
 
 
 def write_module(dec, outdir):
